@@ -165,7 +165,7 @@ def run_shard(ctx):
 
     @given(cases(max_nodes, max_ops))
     def test(case):
-        check_case(ctx, case)
+        runner.guarded(ctx, check_case, case)
 
     runner.drive(ctx, test, ctx.n(600, 8000))
     from checks import c08_files
